@@ -605,6 +605,79 @@ func runC18PublicIP(c *fw.Ctx, id string) {
 	c.Sample(map[string]any{"case": id, "plans": fmt.Sprintf("%+v", plans), "requests": len(rt.log), "ip": fmt.Sprint(ip)})
 }
 
+// runC18FetcherCache: the production PublicIPFetcher (cache + provider iteration) on a scripted HTTP client:
+// a success is returned as-is (IPv4 or IPv6), served from the cache without re-querying until its 2 h expiry,
+// re-queried afterwards; a failure is never cached.
+func runC18FetcherCache(c *fw.Ctx, id string) {
+	resetProcessState()
+	r := c.Rng
+	rt := &scriptedRT{scripts: map[string][]providerStep{}, t0: time.Now()}
+	v6 := r.Intn(2) == 0
+	ip := fmt.Sprintf("192.0.2.%d", 20+r.Intn(200))
+	kind := "valid4"
+	if v6 {
+		ip = fmt.Sprintf("2001:db8::%x", 20+r.Intn(200))
+		kind = "valid6"
+	}
+	firstValid := r.Intn(len(providerHosts))
+	failFirst := r.Intn(3) == 0 // the very first call finds no provider at all
+	setScripts := func(working bool) {
+		for i, h := range providerHosts {
+			switch {
+			case working && i == firstValid:
+				rt.scripts[h] = []providerStep{{kind: kind, ip: ip}}
+			case i%2 == 0:
+				rt.scripts[h] = []providerStep{{kind: "garbage"}}
+			default:
+				rt.scripts[h] = []providerStep{{kind: "s4xx"}}
+			}
+		}
+	}
+	f := publicip.VerifNewPublicIPFetcher(&http.Client{Transport: rt})
+	nreq := func() int { rt.mu.Lock(); defer rt.mu.Unlock(); return len(rt.log) }
+	detail := func() any { rt.mu.Lock(); defer rt.mu.Unlock(); return fmt.Sprintf("%+v", rt.log) }
+	if failFirst {
+		setScripts(false)
+		got, err := f.GetIP(context.Background())
+		if err == nil {
+			c.Violate("C18", "fetcher-invented", fmt.Sprintf("%s: no provider has a valid address but GetIP returned %v", id, got), detail())
+		}
+		n0 := nreq()
+		setScripts(true)
+		got, err = f.GetIP(context.Background())
+		if nreq() == n0 {
+			c.Violate("C18", "fetcher-failure-cached", id+": after a failed discovery the next call did not query the providers again", detail())
+		} else if err != nil || !got.Equal(net.ParseIP(ip)) {
+			c.Violate("C18", "fetcher-wrong-address", fmt.Sprintf("%s: expected %s after the providers recovered, got %v err=%v", id, ip, got, err), detail())
+		}
+		c.Nontrivial("fetcher/failure-then-success")
+	} else {
+		setScripts(true)
+		got, err := f.GetIP(context.Background())
+		if err != nil || !got.Equal(net.ParseIP(ip)) {
+			c.Violate("C18", "fetcher-wrong-address/"+kind, fmt.Sprintf("%s: provider %d answers %s, GetIP returned %v err=%v", id, firstValid, ip, got, err), detail())
+		}
+	}
+	// cached until expiry
+	n1 := nreq()
+	time.Sleep(time.Duration(1+r.Intn(110)) * time.Minute)
+	got, err := f.GetIP(context.Background())
+	if nreq() != n1 {
+		c.Violate("C18", "fetcher-hit-requeried", id+": a cached public IP was re-queried before its expiry", detail())
+	}
+	if err != nil || !got.Equal(net.ParseIP(ip)) {
+		c.Violate("C18", "fetcher-hit-wrong-value/"+kind, fmt.Sprintf("%s: cached %s, got %v err=%v", id, ip, got, err), detail())
+	}
+	// expired
+	time.Sleep(2*time.Hour + time.Minute)
+	f.GetIP(context.Background())
+	if nreq() == n1 {
+		c.Violate("C18", "fetcher-expiry-ignored", id+": the public IP was served from the cache after its 2 h expiry", detail())
+	}
+	c.Nontrivial("fetcher/" + kind)
+	c.Count("fetcher_scenarios", 1)
+}
+
 func checkC18() fw.Check {
 	return fw.Check{
 		Prop:  "C18",
@@ -626,6 +699,7 @@ func checkC18() fw.Check {
 				cases = append(cases, fw.Case{ID: fmt.Sprintf("C18/rdns-cache/%d", i), Bubble: true, Run: func(c *fw.Ctx) { runC18RdnsCache(c, c.ID) }})
 				cases = append(cases, fw.Case{ID: fmt.Sprintf("C18/cache-porcupine/%d", i), Bubble: false, Run: func(c *fw.Ctx) { runC18CachePorcupine(c, c.ID, c.T) }})
 				cases = append(cases, fw.Case{ID: fmt.Sprintf("C18/publicip/%d", i), Bubble: true, Run: func(c *fw.Ctx) { runC18PublicIP(c, c.ID) }})
+				cases = append(cases, fw.Case{ID: fmt.Sprintf("C18/fetcher-cache/%d", i), Bubble: true, Run: func(c *fw.Ctx) { runC18FetcherCache(c, c.ID) }})
 			}
 			return cases
 		},
